@@ -306,14 +306,15 @@ func firstLine(s string) string {
 func init() {
 	bfs.Register("c18", func() bfs.Scenario { return build() })
 	reg.Register(reg.Check{Property: "C18", Level: "model_checking", Run: func(run *ev.Run) {
-		depth, deadline := 6, 55*time.Second
+		depth, deadline := 8, 50*time.Second
 		if ev.Tier() == "thorough" {
-			depth, deadline = 10, 14*time.Minute
+			depth, deadline = 16, 14*time.Minute // the state space is finite (sessions, horizon): the frontier empties around depth 12
 		}
 		cfg := bfs.Config{Scenario: "c18", MaxDepth: depth, Deadline: deadline}
 		st := bfs.Explore(cfg, run)
 		bfs.Report(run, "", cfg, st)
 		run.Set("exhaustive", st.Exhaustive)
+		run.Set("fixpoint_reached", st.Exhaustive && st.DepthCompleted < cfg.MaxDepth)
 		run.Set("bound", fmt.Sprintf("all histories up to depth %d over 19 ops: payments through badge B0 (allocation 10, fixture epoch, user u, signed by the developer key) with CU 4/6/7 in sessions s1-s3 to providers p0/p1, in one tx or several (sums 10 and 13), with a plain relay inside the tx or as its own tx, a second relay of the badge user that does not carry the badge in the same tx; badge B1 for the next epoch (CU 7/4); 4 never-valid variants (foreign relay signer, badge epoch != relay epoch, badge for another lava chain, badge signed by a non-developer); +1 block, next epoch, advance to B0's record expiry; horizon 2 epochs past the expiry", depth))
 		run.Assume("mock bank/account keeper of testutil/keeper; transactions atomic as in baseapp; credited CU = movement of the provider's tracked-CU / serviced-CU ledgers; record expiry = badge epoch + EpochsToSave*EpochBlocks (cross-checked with the keeper at start-up); plan limits (10000 per epoch) never cap the payments used")
 	}})
